@@ -235,6 +235,33 @@ def run(ck, prog, tier, load):
     ck.ob("C03-c.should-close-structure", "should_close_for_unread_payload", n_r >= 1 and ok1 and ok2 and ok3 and ok4 and bool(dl), sc, None,
           "true only with an unfinished payload (%s), equal to !drain (%s), drain only when the handler dropped the payload (%s,%s) and it is drainable" % (ok1, ok2, ok3, ok4))
 
+    # the close decision for an unread request payload is taken while the response body is still alive: ending the
+    # state drops the body, and a body that owns the request payload then looks "dropped by the handler" (drainable)
+    eob = [bb for bb, t in presp.calls(r"Codec as tokio_util::codec::encoder::Encoder<.*>>::encode$") if any(is_agg(x, r"Message::Chunk$") and any(is_agg(y, r"Option::None$") for y in walk(x)) for x in walk(presp.op_expr(t["args"][1], 4)))]
+    scs = [bb for bb, t in presp.calls(r"should_close_for_unread_payload$")]
+    ends = [bb for bb, t in presp.calls(r"Pin.*::set$") if e_has_field(presp.op_expr(t["args"][0]), DF + "state$") and is_agg(presp.op_expr(t["args"][1], 3), r"State::None$")]
+    ck.anchor("C03-c", len(eob), 2, "end-of-body encode(Message::Chunk(None)) sites in poll_response")
+    for e_ in eob:
+        mine = [y for y in ends if presp.dominates(e_, y)]
+        ok = bool(mine) and all(any(presp.dominates(e_, x) and presp.dominates(x, y) for x in scs) for y in mine)
+        ck.ob("C03-c.close-decision-before-state-drop", "poll_response|%s" % ("SendPayload" if e_ == min(eob) else "SendErrorPayload"), ok, presp, (mine or [e_])[0],
+              "at the end of a response body should_close_for_unread_payload(..) is evaluated before state.set(State::None) drops the body (a body owning the request payload must not turn an undrained payload into a 'dropped, drainable' one)")
+    # the server codec installs a body decoder for every request that has a body, whatever else it remembers about it
+    cdec = prog.one(r"^<actix_http::h1::codec::Codec as tokio_util::codec::decoder::Decoder>::decode$")
+    pws = [(bb, cdec.rv_expr(s_["rv"], 4)) for bb, i, s_ in cdec.assigns() if any(isinstance(x, str) and x.endswith("codec::Codec.payload") for x in s_["p"][1:])]
+    ck.anchor("C03-c", len(pws), 3, "writes of Codec.payload in Codec::decode")
+    rets_item = [bb for bb, e in cdec.ret_exprs() if agg_chain(e)[0][:2] == ["core::result::Result::Ok", "core::option::Option::Some"]]
+    for variant in ("Payload", "Stream"):
+        edges = edges_where(cdec, lambda c, lab: c[0] == "discr" and (c[2] or "").endswith("PayloadType") and lab == variant)
+        somes = [bb for bb, e in pws if is_agg(e, r"Option::Some$")]
+        nones = [bb for bb, e in pws if is_agg(e, r"Option::None$")]
+        ok = bool(edges)
+        for a, tb in edges:
+            r_ = cdec.reach([tb])
+            ok = ok and cdec.must_pass([tb], rets_item, somes)[0] and not (set(nones) & r_)
+        ck.ob("C03-c.body-decoder-installed", variant, ok, cdec, (somes or [None])[0],
+              "for a request whose framing is PayloadType::%s every path to the returned head installs the body decoder (payload = Some(..)) and none clears it: otherwise the body bytes are parsed as the next request" % variant)
+
     # ---- (d) an error response always closes the read side ---------------------
     pushes = []
     for (b, bb, t, m) in method_calls_on_field(prog, DF + "messages$", ["actix_http"]):
